@@ -103,7 +103,8 @@ def check_stream(events, acc, counters=None, blockdep_checks=True, max_findings=
                     if B > 0:
                         r = check_blockdep(pf, F, acc, B, c)
                         if r:
-                            findings.append(dict(kind="kernel-vs-previous-kernel", clause=r[0], region=str(r[1]), range=r[2], earlier="%s/%s" % (pf.kind, pf.sub), later=desc + " blockdep=%d jobs=%s" % (B, r[3]), cur="%s/%s" % (F.kind, F.sub), prev="%s/%s" % (pf.kind, pf.sub)))
+                            findings.append(dict(kind="kernel-vs-previous-kernel", clause=r[0], region=str(r[1]), range=r[2], earlier="%s/%s" % (pf.kind, pf.sub), later=desc + " blockdep=%d jobs=%s" % (B, r[3]), cur="%s/%s" % (F.kind, F.sub), prev="%s/%s" % (pf.kind, pf.sub),
+                                                 aliased_ifm_tiles=len(set(F.ifm.bases)) == 1 and (F.ifm.height0 < F.ifm.height or F.ifm.width0 < F.ifm.width)))
                     else:
                         inc("dependent_pairs_fully_serialised")
                 else:
@@ -122,15 +123,15 @@ def check_blockdep(prev, cur, acc, B, c):
     cur_jobs, ncur = footprint.block_jobs(cur, acc, first=B)
     prev_jobs, nprev = footprint.block_jobs(prev, acc, last=B)
     prev_fps = []
-    for box, dr, wr in prev_jobs:
-        f = footprint.op_footprint(prev, acc, ofm_box=box, ifm_depth_range=dr)
+    for box, dr, sk, wr in prev_jobs:
+        f = footprint.op_footprint(prev, acc, ofm_box=box, ifm_depth_range=dr, subkernel=sk)
         if not wr:
             f.writes = {k: v for k, v in f.writes.items() if k == "shram"}
         f.writes.pop("shram", None)
         f.reads.pop("shram", None)
         prev_fps.append(f)
-    for i, (box, dr, wr) in enumerate(cur_jobs):
-        f = footprint.op_footprint(cur, acc, ofm_box=box, ifm_depth_range=dr)
+    for i, (box, dr, sk, wr) in enumerate(cur_jobs):
+        f = footprint.op_footprint(cur, acc, ofm_box=box, ifm_depth_range=dr, subkernel=sk)
         if not wr:
             f.writes = {}
         f.writes.pop("shram", None)
